@@ -976,8 +976,10 @@ def run(ctx, scratch):
             est = rng.choice(['GSVD', 'GSVD', 'SVD', 'PCA'])
             rows_ok = [i for i in range(nr) if any(e[0] == i and e[2] != 0 for e in spec['coo'])]
             case = dict(m=spec, kind=est, n_components=rng.randint(1, min(3, min(nr, nc) - 1)), normalized=rng.random() < 0.5,
-                        solver=rng.choice([None, None, {'tol': 0.0}, {'tol': 1e-12, 'n_iter': 1000}]),
+                        solver=rng.choice([None, None, {'tol': 0.0}, {'tol': 1e-12, 'n_iter': 1000}, 'custom_ascending']),
                         predict_rows=sorted(rng.sample(rows_ok, min(2, len(rows_ok)))), predict_all=rng.random() < 0.3)
+            if est == 'PCA' and case['solver'] == 'custom_ascending':
+                case['solver'] = None       # PCA keeps the order its solver chose (nothing documented says otherwise): not judged
             if est != 'PCA':
                 case['regularization'] = rng.choice([None, 0, 0.1, 1])
                 case['factor_singular'] = rng.choice([0., 0.5, 1.])
